@@ -29,8 +29,8 @@ func (*c29) ID() string { return "C29" }
 func (*c29) Rule() string {
 	return "runnable programs rich in what makes the interpreter copy or rewrite nodes (aliases with trailing blanks and chains, declare/export/local/readonly with expanding arguments, brace expansion in arguments, assignments and loops, here-documents incl. <<-, functions defined, called and redefined, traps, eval, += on scalars and arrays, for over \"$@\", process and command substitutions), from the runnable generator, the repo's safe runTests programs and alias/declare templates; each parsed once and run 1x or 3x (with and without Reset in between) on that same tree. Oracle: the reflection dump of the tree with every field, position and comment, and its printed form, are identical before and after; a spy Environ given through interp.Env records zero Set calls and yields the same Each sequence before and after. Non-trivial: the program assigns, exports or unsets at least one variable or defines an alias/function; distinct: hash of (source, runs)."
 }
-func (*c29) NumCases(tier string) int      { return tierN(tier, 2500, 100000) }
-func (*c29) MinNontrivial(tier string) int { return tierN(tier, 1000, 40000) }
+func (*c29) NumCases(tier string) int      { return tierN(tier, 2500, 50000) }
+func (*c29) MinNontrivial(tier string) int { return tierN(tier, 1000, 20000) }
 func (*c29) New() any                      { return &ProgCase{} }
 func (*c29) CaseTimeout() time.Duration    { return 120 * time.Second }
 func (*c29) Assumptions() []string {
